@@ -103,6 +103,34 @@ def _gen_tail(rng, supported, preferred, timeout, ans, events, dup):
             "answer": ans, "dup": dup, "events": events}
 
 
+def systematic(tier: str):
+    """Every answer kind x answer instant {at once, mid-way, timeout-1, timeout, timeout+1} x entry point, fixed supported list."""
+    out = []
+    timeout = 1.0
+    dl = int(timeout / TICK)
+    kinds = ["proposed", "other_supported", "unsupported", "wellformed_unknown", "missing_version", "nonstring_version", "null_version",
+             "missing_serverinfo", "bad_caps", "error", "silence", "result_not_object"]
+    for kind in kinds:
+        for at in (0, 1, dl // 2, dl - 1, dl, dl + 1):
+            for api in ("send_initialize", "tracking", "stdio"):
+                for tie in ((0, 2) if at == dl else (0,)):
+                    ans = {"kind": kind, "t": at, "tie": tie, "hops": 0}
+                    if kind == "other_supported":
+                        ans["pick"] = 1
+                    if kind == "unsupported":
+                        ans["version"] = "1999-01-01"
+                    if kind == "wellformed_unknown":
+                        ans["version"] = "2031-02-03"
+                    if kind == "nonstring_version":
+                        ans["version"] = 20250618
+                    if kind == "error":
+                        ans["code"], ans["text"] = -32602, "Unsupported protocol version"
+                    out.append({"v": 1, "api": api, "supported": ["2025-06-18", "2025-03-26", "2024-11-05"], "preferred": None, "timeout": timeout,
+                                "uuid_seed": 777, "mode": "model_validate", "pre_version": None, "mcpclient": None, "break_write_after_request": False,
+                                "concurrent": None, "reconnect": None, "slow_reader": None, "answer": ans, "dup": None, "events": []})
+    return out
+
+
 def simplify(scn):
     if scn.get("slow_reader"):
         c = copy.deepcopy(scn); c["slow_reader"] = None; yield c
